@@ -17,7 +17,8 @@ RULE = ('cases = (rule, residual vector kind in {mixed, all positive, all negati
         'magnitude 1e-100..1e100, scheme parameters, iteration 1..200) compared with the Lean Float instance of the rule, plus direct '
         'checks of finiteness / range / monotonicity on the real output; hosts: trajectory replay of (max_iter, tol) grids through the '
         'Lean loop skeleton on noisy and on noise-free data (documented early exit) and the pairing weights = rule(returned baseline) at '
-        'exhaustion; non-trivial = at least two negative residuals; distinct by canonical tuple')
+        'exhaustion; the loops as translated from the source (Gen/Loops): every row with an early-exit flag replayed on the noise-free sets, '
+        'a sample of the others on noisy data, against the real call observed by LoopSpy; non-trivial = at least two negative residuals; distinct by canonical tuple')
 ASSUMPTIONS = [
     'libm exp / scipy expit / erf: the Lean Float instance uses the C library exp; agreement is demanded to 1e-9 absolute on weights in [0, 1]',
     'step statistics (mean, ddof-1 std, sum of the negative residuals) are computed by naive Float summation in the model (numpy uses pairwise summation)',
